@@ -1,6 +1,7 @@
 /- C04 — hand-written property theorems (the per-function theorems are generated, see Gen/Conv2Thm). -/
 import Libvna.Gen.Conv2All
 import Libvna.Props.C19Solve
+import Libvna.Props.C04N
 
 namespace Libvna.C04
 open Libvna.LULoop
